@@ -71,7 +71,7 @@ const (
 	// gzip; the client sends identity, so the response encoding is negotiated
 	// from its accept list and the only common one is gzip.
 	CompAsym Comp = "asym"
-	MinBytes          = 64
+	MinBytes      = 64
 )
 
 var AllComps = []Comp{CompDefault, CompSendGzip, CompSendMin, CompCustom}
